@@ -73,6 +73,15 @@ func (e *emitter) countN(k string, n int) {
 }
 func (e *emitter) close() {
 	e.stats["distinct_nontrivial"] = len(e.seen)
+	// judgements made by the harness itself (HFAIL on violation), for the evidence
+	hj := 0
+	for k, v := range e.stats {
+		if k == "calls_checked" || k == "paused_queries" || strings.HasSuffix(k, "_truncations") ||
+			strings.HasSuffix(k, "_writer_failures") || strings.Contains(k, "_restore_") {
+			hj += v
+		}
+	}
+	e.stats["harness_judgements"] = hj
 	e.w.Flush()
 }
 
